@@ -7,8 +7,9 @@ from .. import nodegen
 
 ID = "C02"
 SUITES = ["core", "node"]
-LEAN_MODULES = ["VpnCloud.Proofs.C02"]
-THEOREMS = ["VpnCloud.Proofs.C02." + n for n in ("roundtrip", "accepted_is_genuine", "reject_no_state", "garbage_rejected", "reflection_rejected", "cross_connection_rejected")]
+LEAN_MODULES = ["VpnCloud.Proofs.C02", "VpnCloud.Proofs.C02Node"]
+THEOREMS = ["VpnCloud.Proofs.C02." + n for n in ("roundtrip", "accepted_is_genuine", "reject_no_state", "garbage_rejected", "reflection_rejected", "cross_connection_rejected")] + [
+            "VpnCloud.Proofs.C02Node.wire_is_sealed", "VpnCloud.Proofs.C02Node.pending_session_carries_nothing", "VpnCloud.Proofs.C02Node.pending_session_cannot_send"]
 BATCH = 100
 SEARCH_BUDGET_S = 300
 EXPECTED_CLASSES = ["seal:d", "deliver:ok", "deliver:err", "tick:ok"]
